@@ -779,6 +779,181 @@ def oracle_modes_real(index):
     return None
 
 
+# ------------------------------------------------------------------ suite: predict-batch-independence (seeded change C14f)
+def straggler_pool(rs, d):
+    """2-3 neighbouring clusters of DIFFERENT width, all narrow in unit-cube coordinates (an informative likelihood late in a run), plus a
+    few far stragglers (old prior-stage particles: >= 40 sigma from every cluster, low weight).  Returns (u, is_straggler)."""
+    k = int(rs.randint(2, 4))
+    sig = np.sort(10.0 ** rs.uniform(-3.2, -1.95, size=k))            # 0.0006 .. 0.011, distinct widths
+    if sig[-1] < 3.0 * sig[0]:
+        sig[-1] = 3.0 * sig[0] + 1e-4
+    centre0 = rs.uniform(0.12, 0.3, size=d)
+    parts = []
+    for j in range(k):
+        # neighbouring: centres a few (broad) sigmas apart, so that the GMM boundary is not the Voronoi boundary
+        off = np.zeros(d)
+        off[rs.randint(d)] = (1.5 + 2.0 * rs.rand()) * sig[-1] * j
+        parts.append(centre0 + off + sig[j] * rs.randn(int(rs.randint(120, 400)), d))
+    m = int(rs.randint(3, 14))
+    far = rs.uniform(0.86, 0.98, size=(m, d))
+    u = np.clip(np.vstack(parts + [far]), 1e-6, 1 - 1e-6)
+    is_far = np.zeros(len(u), dtype=bool)
+    is_far[-m:] = True
+    perm = rs.permutation(len(u))
+    return u[perm], is_far[perm]
+
+
+def _proba_gap(cl, point):
+    """gap between the two largest responsibilities of ONE point (inf when there is one cluster or the row is not finite)"""
+    try:
+        with warnings.catch_warnings():
+            warnings.simplefilter("ignore")
+            p = np.sort(np.asarray(cl.predict_proba(point.reshape(1, -1)))[0])
+    except Exception:  # noqa
+        return float("inf")
+    if len(p) < 2 or not np.all(np.isfinite(p)):
+        return float("inf")
+    return float(p[-1] - p[-2])
+
+
+def batch_independence(cl, batch):
+    """predict() must label every point by itself: predict(batch)[i] == predict(batch[i:i+1])[0].  Returns (message|None, near_ties)."""
+    with warnings.catch_warnings():
+        warnings.simplefilter("ignore")
+        together = np.asarray(cl.predict(batch))
+        alone = np.array([int(cl.predict(batch[i:i + 1])[0]) for i in range(len(batch))])
+    ties = 0
+    for i in np.nonzero(together != alone)[0]:
+        if _proba_gap(cl, batch[i]) < 1e-9:
+            ties += 1
+            continue
+        return (f"predict() labels point {batch[i].tolist()} with {int(together[i])} inside a batch of {len(batch)} points but with "
+                f"{int(alone[i])} on its own: the label of a particle depends on which other particles are in the batch"), ties
+    return None, ties
+
+
+def straggler_iteration(seed, d=None, n_active=None, info=None):
+    """One REAL iteration (Trainer.run -> Resampler.run -> Mutator.run, real HierarchicalGaussianMixture wired as in core.py, real
+    fit_mvstud, real trim_weights / resampling) on a generated pool with far low-weight stragglers, parallel_mcmc intercepted.
+    The statement's oracle, particle by particle: an active particle that is also a training particle must be sent to the mode fitted
+    from the cluster the Trainer put THAT particle in.  Plus batch independence of predict on batches with and without stragglers.
+    Returns a message or None."""
+    import tempest.modes as tm
+    import tempest.steps.mutate as mut
+    from tempest.cluster import HierarchicalGaussianMixture as HGM
+    from tempest.state_manager import StateManager
+    from tempest.steps.mutate import Mutator
+    from tempest.steps.resample import Resampler
+    from tempest.steps.train import Trainer
+    rs = np.random.RandomState(seed)
+    d = int(rs.randint(1, 4)) if d is None else d
+    n_active = int(rs.choice([64, 128, 256])) if n_active is None else n_active
+    u_pool, is_far = straggler_pool(rs, d)
+    logl = -0.5 * np.sum((u_pool - 0.2) ** 2, axis=1)
+    st = StateManager(n_dim=d)
+    for it, chunk in enumerate(np.array_split(np.arange(len(u_pool)), 4)):
+        st.update_current({"u": u_pool[chunk], "x": u_pool[chunk], "logl": logl[chunk], "beta": 0.1 * it, "iter": it, "logz": 0.0,
+                           "calls": 0, "steps": 1, "efficiency": 1.0, "acceptance": 1.0, "ess": float(len(u_pool))})
+        st.commit_current_to_history()
+    st.set_current("beta", 0.5)
+    st.set_current("iter", 4)
+    u_hist = np.array(st.get_history("u", flat=True))
+    far_hist = np.min(u_hist, axis=1) > 0.8
+    w = np.where(far_hist, float(rs.choice([0.3, 0.1, 0.5])), 1.0)
+    w = w / w.sum()
+    normalize = bool(rs.rand() < 0.7)
+    cl = HGM(n_init=1, max_iterations=1000, min_points=None, threshold_modifier=1.0, covariance_type="full", verbose=False,
+             normalize=normalize)
+    tr = Trainer(state=st, clusterer=cl, cluster_every=1, clustering=True, TRIM_ESS=0.99, TRIM_BINS=1000, DOF_FALLBACK=1e6)
+    rsm = Resampler(state=st, n_particles=n_active, resample=str(rs.choice(["syst", "mult"])), clusterer=cl)
+    mutr = Mutator(state=st, prior_transform=lambda v: v, log_likelihood=lambda x: (-0.5 * np.sum((x - 0.2) ** 2, axis=1), None),
+                   n_particles=n_active, n_dim=d, n_steps=1, n_max_steps=1, sampler="tpcn")
+    rec = {}
+    real_fp = tm.ModeStatistics.from_particles.__func__
+
+    def fp_spy(cls, u, weights, labels, *a, **k):
+        rec["train_u"], rec["train_labels"] = np.array(u), np.array(labels)
+        return real_fp(cls, u, weights, labels, *a, **k)
+
+    def mc_spy(**k):
+        rec["u"], rec["idx"], rec["ms"] = np.array(k["u"]), np.array(k["assignments"]), k["mode_stats"]
+        return k["u"], k["x"], k["logl"], k["blobs"], 1.0, 1.0, 1, 0
+    np.random.seed(int(rs.randint(2 ** 31 - 1)))
+    try:
+        with common.patched(tm.ModeStatistics, "from_particles", classmethod(fp_spy)), common.patched(mut, "parallel_mcmc", mc_spy), \
+                _quiet(), warnings.catch_warnings():
+            warnings.simplefilter("ignore")
+            ms = tr.run(w.copy())
+            rsm.run(w.copy())
+            mutr.run(ms)
+    except np.linalg.LinAlgError:
+        if info is not None:
+            info["refused"] = True                     # a degenerate cluster refused by the constructor: finding F24, no mutation
+        return None
+    u_act, idx, ms = rec["u"], rec["idx"], rec["ms"]
+    n_far_active = int(np.sum(np.min(u_act, axis=1) > 0.8))
+    n_far_train = int(np.sum(np.min(rec["train_u"], axis=1) > 0.8))
+    if info is not None:
+        info.update(K=int(ms.K), far_active=n_far_active, far_train=n_far_train, d=d, n_active=n_active, ties=0)
+    where = (f"generated pool (seed {seed}, d={d}, {len(u_pool)} particles of which {int(is_far.sum())} far low-weight stragglers, "
+             f"{n_far_train} of them in the trimmed training pool, {n_far_active} among the {n_active} active particles, K={ms.K})")
+    mode_labels = np.arange(ms.K) if ms.labels is None else np.asarray(ms.labels)
+    if idx.min() < 0 or idx.max() >= ms.K:
+        return f"{where}: mode index {int(idx.max())} handed to the kernel has no mode"
+    lookup = {tuple(float(v) for v in row): int(lab) for row, lab in zip(rec["train_u"], rec["train_labels"])}
+    for i in range(len(u_act)):
+        lt = lookup.get(tuple(float(v) for v in u_act[i]))
+        if lt is None or int(mode_labels[idx[i]]) == lt:
+            continue
+        if _proba_gap(cl, u_act[i]) < 1e-9:
+            if info is not None:
+                info["ties"] += 1
+            continue
+        return (f"{where}: active particle {i} at u={u_act[i].tolist()} is a training particle that the Trainer labelled {lt} (it is one "
+                f"of the particles mode {lt} was fitted from) but it is mutated with the mode of label {int(mode_labels[idx[i]])}: that mode "
+                f"was not fitted from the particles of this particle's cluster (predict on the particle alone: "
+                f"{int(cl.predict(u_act[i:i + 1])[0])})")
+    # predict is a function of the point: batches with stragglers, with extreme points, and the training pool itself
+    core_pts = rec["train_u"][rs.choice(len(rec["train_u"]), size=min(60, len(rec["train_u"])), replace=False)]
+    far_pts = u_hist[far_hist][:4]
+    extreme = np.array([np.full(d, 1e3), np.full(d, -1e3), np.where(np.arange(d) % 2 == 0, 40.0, -40.0)])
+    for name, batch in (("active set", u_act), ("training points + stragglers", np.vstack([core_pts, far_pts])),
+                        ("training points + points at +-1e3", np.vstack([core_pts, extreme])), ("training points", core_pts)):
+        msg, ties = batch_independence(cl, batch)
+        if info is not None:
+            info["ties"] += ties
+        if msg:
+            return f"{where}, batch = {name}: {msg}"
+    return None
+
+
+def correspond_stragglers(tier):
+    rng = common.rng_for("C14.stragglers")
+    c = Corr("predict-batch-independence", "model-free, exact: labels compared as integers; a difference is only counted as a near_tie when the two "
+                                            "largest responsibilities of that single point differ by < 1e-9")
+    for i in range(24 if tier == "quick" else 400):
+        seed = rng.randrange(2 ** 31)
+        info = {}
+        try:
+            msg = straggler_iteration(seed, info=info)
+        except Exception as e:  # noqa
+            msg = f"iteration on the generated pool (seed {seed}) raised {type(e).__name__}: {e}"
+        c.case(("straggler", seed), True)
+        if info.get("refused"):
+            c.count("constructor_refused_a_degenerate_cluster(F24)")
+            continue
+        c.count(f"d={info.get('d')}")
+        c.count(f"K_modes={info.get('K')}")
+        c.count("a_straggler_among_the_active_particles" if info.get("far_active") else "no_straggler_resampled")
+        c.count("stragglers_trimmed_from_the_training_pool" if info.get("far_train") == 0 else "stragglers_in_the_training_pool")
+        c.near_ties += info.get("ties", 0)
+        if msg:
+            c.disagree(input={"seed": seed}, impl=msg, model="predict labels every particle by itself; an active particle keeps the label the "
+                       "Trainer gave it (same fit)", kind="straggler", seed=seed)
+        c.sample({"seed": seed, **{k: v for k, v in info.items()}})
+    return c
+
+
 # ------------------------------------------------------------------ wiring, second pass
 def wiring_cases(drv, c):
     """n_max_clusters -> min_points; Trainer and Resampler agree on `clustering`; the pickled core inside a checkpoint keeps the
